@@ -164,6 +164,19 @@ func (g *Generator) generateMockMethod(
 	return nil
 }
 
+// mockExamplePath returns the key prefix under which collectMessageFieldExamples files the
+// examples of a message: its name including the enclosing messages ("Outer.Inner").
+func mockExamplePath(message *protogen.Message) string {
+	path := string(message.Desc.Name())
+	for parent := message.Desc.Parent(); parent != nil; parent = parent.Parent() {
+		if _, ok := parent.(protoreflect.MessageDescriptor); !ok {
+			break
+		}
+		path = string(parent.Name()) + "." + path
+	}
+	return path
+}
+
 // generateMockFieldAssignments generates field assignments for a message.
 func (g *Generator) generateMockFieldAssignments(
 	gf *protogen.GeneratedFile,
@@ -187,7 +200,7 @@ func (g *Generator) generateMockFieldAssignments(
 
 	for _, field := range message.Fields {
 		fieldName := field.GoName
-		fieldPath := messageName + "." + string(field.Desc.Name())
+		fieldPath := mockExamplePath(message) + "." + string(field.Desc.Name())
 
 		// Generate assignment based on field type
 		switch field.Desc.Kind() {
